@@ -370,6 +370,16 @@ def clear_agree(ctx, rr):
         if badp is not None:
             rr.fail(ctx.finding('R-CLEAR-AGREE', u, u.node, 'clear(): argument `%s` %s: the cleared index keeps the old rules and differs from a fresh index given the same arguments'
                                 % (prm, badp[1]), detail={'row': badp[0].show()[:400]}, stmt='clear honours %s' % prm))
+    # the rule table installed by clear() is the Traph's own object: binding the caller's dict itself makes add_webentity_creation_rule write the
+    # compiled patterns (and the encoded prefixes) into the dict it is iterating over and into the caller's data
+    for a in P.own(u, ast.Assign):
+        if any(self_attr_name(t) == 'webentity_creation_rules' for t in a.targets):
+            alias = isinstance(a.value, ast.Name) and a.value.id in u.call_params
+            rr.ob(ctx.where(u, a), 'clear() installs a rule table of its own (not the caller\'s dict object)', ok=not alias)
+            if alias:
+                rr.fail(ctx.finding('R-CLEAR-AGREE', u, a, 'clear() binds self.webentity_creation_rules to its argument `%s` itself: the rules registered next are written into the dict '
+                                    'being iterated and into the caller\'s data (compiled patterns in place of the bytes), so giving the same rules again - to a reopened or fresh '
+                                    'index - no longer builds the same index' % a.value.id, stmt='clear rule table alias'))
     # each reopened file is plugged into the storage __init__ built on it (the trie storage gets the trie file)
     pair_init = {}
     for a in P.own(init, ast.Assign):
